@@ -338,14 +338,24 @@ func (tc *tcmp) cmp(path string, p *pnode, v *V) *tmismatch {
 		if p.kind != pStruct {
 			return mm("struct-shape", "want struct, text has %s", p.describe())
 		}
+		// Fields are named in the text format, so their order carries no
+		// meaning: compare as a name -> value map (no duplicates allowed).
 		if len(p.fields) != len(v.Fields) {
 			return mm("struct-shape", "text shows %d fields %v, accessors show %d %v", len(p.fields), p.fieldNames(), len(v.Fields), v.fieldNames())
 		}
-		for i, f := range v.Fields {
-			if p.fields[i].name != f.Name {
-				return mm("struct-shape", "field %d is %q in text, %q by accessors", i, p.fields[i].name, f.Name)
+		byName := map[string]*pnode{}
+		for _, pf := range p.fields {
+			if _, dup := byName[pf.name]; dup {
+				return mm("struct-shape", "field %q appears twice in text", pf.name)
 			}
-			if m := tc.cmp(path+"."+f.Name, p.fields[i].val, f.Val); m != nil {
+			byName[pf.name] = pf.val
+		}
+		for _, f := range v.Fields {
+			pv, ok := byName[f.Name]
+			if !ok {
+				return mm("struct-shape", "accessors show field %q, text shows %v", f.Name, p.fieldNames())
+			}
+			if m := tc.cmp(path+"."+f.Name, pv, f.Val); m != nil {
 				return m
 			}
 		}
